@@ -66,7 +66,9 @@ type GateLimiter struct {
 	Completed atomic.Int64
 	Double    atomic.Int64 // tokens completed more than once
 	Refusals  atomic.Int64
-	byOutcome [3]atomic.Int64
+	// RefuseNext makes the next attempt fail without asking the inner limiter.
+	RefuseNext atomic.Bool
+	byOutcome  [3]atomic.Int64
 }
 
 // NewGate wraps a limiter.
@@ -76,6 +78,11 @@ func NewGate(inner core.Limiter) *GateLimiter {
 
 // Acquire implements core.Limiter.
 func (g *GateLimiter) Acquire(ctx context.Context) (core.Listener, bool) {
+	if g.RefuseNext.CompareAndSwap(true, false) {
+		// a delegate is free to refuse (a newcomer was faster, a partition is full, the limit just shrank)
+		g.Refusals.Add(1)
+		return nil, false
+	}
 	l, ok := g.Inner.Acquire(ctx)
 	id := CallerOf(ctx)
 	g.mu.Lock()
